@@ -289,5 +289,42 @@ def rows(g, start=None, stop=None, max_paths=4000, want_calls=None, max_visits=1
                     row.calls.append((name, args, n))
             elif t["k"] == "return" and last and n.frame is g.root:
                 row.ret = pr.local(n.frame, 0, i, -1)
-        out.append(row)
+        # a pure condition evaluated twice on one path cannot have two different outcomes
+        seen = {}
+        feasible = True
+        for (e, lab, n) in row.conds:
+            c = ir.const_value(e)
+            if isinstance(c, int) and isinstance(lab, tuple):
+                # the condition is a constant along this path (e.g. the boolean produced by `matches!`)
+                if (lab[0] == 'case' and lab[1] != c) or (lab[0] == 'otherwise' and c in lab[1]):
+                    feasible = False
+                    break
+            if _pure(e):
+                k, v = e, lab
+                pe = ir.peel(e, casts=False)
+                if pe[0] == 'bin' and pe[1] in ('Eq', 'Ne') and isinstance(lab, tuple):
+                    t = (lab[0] == 'otherwise') or (lab[0] == 'case' and lab[1] != 0)
+                    a, b = sorted([pe[2], pe[3]], key=str)
+                    k = ('bin', 'Eq', a, b)
+                    v = t if pe[1] == 'Eq' else (not t)
+                if k in seen and seen[k] != v:
+                    feasible = False
+                    break
+                seen[k] = v
+        if feasible:
+            out.append(row)
     return out
+
+
+def _pure(e):
+    """No call to anything but known-pure helpers: the value cannot change between two evaluations on a
+    path that performs no write to the fields involved (the dispatch functions only write after deciding)."""
+    for x in ir.walk(e):
+        if x[0] == 'call':
+            nm = x[1]
+            if not (nm.endswith("::get") or nm.endswith("::len") or "from_be_bytes" in nm or nm.endswith("::from_bytes")
+                    or nm.endswith("try_from") or nm.endswith("try_into") or nm.endswith("::expect") or ir.is_transparent(nm)
+                    or nm.endswith("::is_input_stream") or nm.endswith("::is_management") or nm.endswith("index")
+                    or nm.endswith("index_mut") or nm.endswith("split_at_mut")):
+                return False
+    return True
